@@ -4,15 +4,15 @@ from vlib import core
 
 THEOREMS = ['name_rule', 'name_mac', 'name_other', 'prefix_table', 'id_doc', 'name_doc', 'name_deterministic', 'metadata_as_received',
             'skip_rule', 'reported_identified', 'unidentified_not_reported', 'probe_bounded', 'stalling_hosts_bounded',
-            'gen_after_cancel', 'run_bounded']
-MODULES = ['LLRP.Model.Probe', 'LLRP.Model.Discover', 'LLRP.Proofs.Discover', 'LLRP.Oracle.C17']
+            'gen_after_cancel', 'run_bounded', 'probe_limits', 'skip_cond']
+MODULES = ['LLRP.Gen.ProbeFacts', 'LLRP.Model.Probe', 'LLRP.Model.Discover', 'LLRP.Proofs.Discover', 'LLRP.Oracle.C17']
 RULE = ('real probe() against a scripted loopback LLRP host (hand-written frames, payloads from the repo marshalers): vendors {Impinj, Alien, Zebra, '
         '0, 50, Impinj+-1, random} x models {9 table models, neighbours, 0, 0x32, 2^32-1, random} x id types {0,1,2,255,random} x reader ids of '
         'length 0..16 x firmware strings, identification / capabilities present or missing; every observed name is compared with the '
-        'code-following rule (name), the README table (name-doc) and the whole probe result (probe); host behaviours refuse, closeAfterAccept, '
+        'code-following rule (name), the README table (name-doc) and the whole probe result (probe); host behaviours byeRefused (CloseConnection refused, connection kept), busyMidExchange (thorough: keep-alives instead of an answer, bounded by sendTimeout), refuse, closeAfterAccept, '
         'acceptSilent, stallPartialHello, garbage, helloRefused, helloWrongType, stallMidHandshake, garbageMidHandshake, stallMidExchange, '
         'closeMidExchange, configRefused, stallCaps, capsRefused, correct (thorough: closeMidHandshake): outcome and wall-clock of probe(); '
-        'skip rule through the mock SDK Devices() (absent / Up / Down / other port / other host / among others) and real autoDiscover; '
+        'skip rule through the mock SDK Devices() (absent / Up / Down / other port / other host / among others / Up or Down with AdminState LOCKED / UNLOCKED / unknown operating state) and real autoDiscover; '
         'autoDiscover(max duration 500 ms, probe timeout 400 ms, 3 workers, 9 addresses) against 8 behaviours and with an expired context. '
         'distinct = distinct request lines; non-trivial = expected reply other than none')
 ASSUMPTIONS = ['deviceName / devicePrefix use the go2lean translation of HostnamePrefix and the extracted constants; the suffix rule, skip rule, probe '
@@ -95,6 +95,10 @@ def report(res, r, e, o):
         key = 'probe-time:%s' % beh
         res.violation(key, 'probe(timeout %s ms) of a %s host: %s; %s' % (tms, beh, 'did not return (blocked)' if el == 'blocked' else 'returned after %s ms' % el, e),
                       'input', True, case=[r], expected=['accept'], observed=[e])
+    elif verb == 'probe-busy-check':
+        el = parts[1]
+        res.violation('probe-time:busyMidExchange', 'probe of a host that never answers GetReaderConfig but keeps sending keep-alives: %s; %s' % (
+            'did not return (blocked)' if el == 'blocked' else 'returned after %s ms' % el, e), 'input', True, case=[r], expected=['accept'], observed=[e])
     elif verb == 'run-check':
         beh, dms, tms, el = parts[1:5]
         key = 'run-time:%s:%s' % (beh, 'expired' if dms == '0' else 'limited')
@@ -121,7 +125,7 @@ def replay(res, path):
     # the harness is deterministic in (tier, seed) up to measured times: re-run it and judge the replayed requests
     # (time checks are matched on verb + behaviour, their measured value differs from run to run)
     want = set(case)
-    heads = {' '.join(c.split(' ')[:2]) for c in case if c.split(' ')[0] in ('probe-time-check', 'run-check')}
+    heads = {' '.join(c.split(' ')[:2]) for c in case if c.split(' ')[0] in ('probe-time-check', 'run-check', 'probe-busy-check')}
     binp, out = core.build_harness('driver')
     if not binp:
         raise RuntimeError('harness build failed:\n' + out[-3000:])
